@@ -1,5 +1,7 @@
 import Hertz.Proofs.Http1
 import Hertz.Proofs.ReqRoundtrip
+import Hertz.Proofs.ReqRoundtripOws
+import Hertz.Proofs.ReqOwsBlank
 /-!
 # C01 — the server frames and orders pipelined requests exactly as the wire says
 
@@ -31,22 +33,50 @@ Proved for every stream that is the encoding of well-formed requests (`Proofs/Re
   served (up to and including the first `Connection: close`), in order, with their own method, target, fields,
   body and trailers (`seen_trailers`; trailer names starting with the byte `0` included — the case repaired by
   `/repo` 0060100).  Fields may repeat, come in any order and any letter case; encoding is the canonical
-  `name ": " value CRLF`.
+  `name ": " value CRLF` (every other spelling: `serve_roundtrip_ows` below).
 * `spec_decodes_encoding`, `serve_refines_spec`: the independent strict decoder `Spec.Http.decodeAll` reads
   `encAll rs` back as exactly `rs` (so `wfReq`/`encAll` describe streams of the specification's language, and the
   encoder is a right inverse of the specification), and what the handler is handed agrees with what the strict
   decoder assigns to each request.
 
+Proved for every spelling of a field line the strict decoder accepts (`Proofs/ReqOwsLine.lean`, `ReqOwsCanon.lean`,
+`ReqRoundtripOws.lean`, `ReqOwsBlank.lean`; second half of this file):
+* `field_line_scan`, `field_value_ows`, `field_value_canon`, `canon_is_canonVal`, `value_without_blanks_same`,
+  `strict_value_without_blanks_same`, `head_roundtrip_ows`, `request_roundtrip_ows`, `serve_roundtrip_ows`,
+  `serve_roundtrip_ows_trimmed`, `serve_refines_spec_ows(_partial)`, `server_close_implies_strict_close`: a field line is
+  `name ":" raw CRLF (cont CRLF)*` with `raw` any field-vchars (any optional whitespace, SP / HTAB, none or several, before
+  and after the value) and obs-fold continuation lines `cont` (start with SP / HTAB, field-vchars, no colon), in the
+  header section and in the trailer section.  The handler is handed `hval f`, the strict decoder returns `sval f`.
+  Without obs-fold both are `trimOWS raw`, and the handler is handed exactly the strict decoder's reading of the requests
+  to be served (`serve_roundtrip_ows_trimmed`, conditions on the trimmed values).  With obs-fold `hval f` = the first line
+  without leading blanks, then the continuation lines with CRLF removed and leading HTABs turned into SPs, leading SPs and
+  trailing SP / HTAB of the whole removed (nothing compacted); `sval f` = OWS-trimmed lines joined by one SP; for every
+  list of such requests (`wfOReq`) the handler gets exactly the requests to be served in the reading `seenW`, the strict
+  decoder reads the stream back in the reading `strictW`, and the two readings are equal modulo `canon` = the driver's
+  `canonVal` (proved equal for all values).  A value without blanks is the same in both readings.
+* FOUND BY THIS PROOF, FIXED IN `/repo` 4c60fb1: hertz stripped SP only around a field value, so a HTAB next to the value
+  of `Connection` / `Content-Length` / `Expect` made server and strict decoder disagree (`Connection:<HTAB>close` did not
+  close and the next pipelined request was served; `Content-Length:<HTAB>3` → 400; `Expect:<HTAB>100-continue` → no
+  interim response).  Regression theorems on the same streams: `htab_connection_close_closes`,
+  `htab_content_length_accepted`, `htab_expect_continue` (replayed on the repaired server: same, no spec failure).
+* what is left of it, `serve_refines_spec_ows_fails_at`, `fold_corner_content_length_refused`: the obs-fold corner "blank
+  first line, continuation line starting with SPs followed by a HTAB" (`Connection: CRLF ␠⇥close`): the handler's value
+  keeps the HTAB; model = real server (`replays-Q01/fold_corner.json`), the per-case check reports it (finding, see
+  INTEGRATION.md).  `serve_refines_spec_ows` holds with the explicit hypothesis `noLeadTab` that excludes exactly this.
+* `blank_lines_ignored`, `serve_roundtrip_blank_lines`, `spec_refuses_blank_line`: any number of empty lines (CRLF) in
+  front of a request line are skipped by the server; the round trip holds with them (the strict decoder refuses them).
+
 TODO-OPEN (still decided per explored case by the spec step, `Driver/H1Spec.lean:c01`, which compares what the
 implementation's handler saw with the independent strict decoder `Spec/Http.lean`):
-* `serve_roundtrip` for the part of the strict decoder's language outside `wfReq`:
+* `serve_roundtrip` for the part of the strict decoder's language outside `wfReq` / `wfOReq`:
   - trailer sections whose names are not exactly the declared names in declaration order (undeclared trailer
     fields are dropped by the server, missing ones are reported empty, `updateTrailer` fills by name), and `Trailer`
     declarations in another spelling than `n1, n2` (no blank after the comma, empty elements, a trailing comma) or
     naming a forbidden field (answered 400 when it is the last element);
-  - other spellings of a field line that the strict decoder accepts: no or several blanks / HTAB after the colon,
-    blanks before CRLF, obs-fold continuation lines (the scanner lemma `scanNext_field` covers `": "` only);
-  - HTTP/1.0 request lines (the strict decoder refuses them anyway), empty lines in front of a request.
+  - framing fields spelled in the obs-fold corner above (`Content-Length: CRLF ␠⇥3`): in the strict decoder's language,
+    refused by the server with 400 (witness `fold_corner_content_length_refused`; no general theorem);
+  - obs-fold continuation lines that contain a colon (refused by hertz with 400, `foldedColon` in the strict decoder: no claim);
+  - bare LF line ends, empty lines after the last request, HTTP/1.0 request lines (the strict decoder refuses all of them).
 -/
 namespace Hertz.Props.C01
 open Hertz Hertz.H1
@@ -218,5 +248,266 @@ theorem serve_refines_spec (cfg : Cfg) (e : End) (rs : List WReq)
   refine ⟨decodeAll_enc rs (fun r hr => (hw r hr).1), ?_⟩
   rw [serve_own_bytes cfg e rs hw, List.map_map]
   rfl
+
+/-! ### round trip for every spelling of a field line (`Proofs/ReqOwsLine.lean`, `ReqOwsCanon.lean`, `ReqRoundtripOws.lean`)
+
+`FLine` is a field as spelled on the wire: `name ":" raw CRLF (cont CRLF)*` — `raw` is the text between the colon and
+the first CRLF, blanks included (so any optional whitespace, SP or HTAB, none or several, on either side of the value),
+`conts` are obs-fold continuation lines.  `wfFLine` = the strict decoder's conditions (token name, field-vchars, a
+continuation line starts with SP / HTAB) plus "no colon in a continuation line" (hertz refuses those; the strict decoder
+flags them `foldedColon`, no claim).  `hval f` is what the handler is handed, `sval f` what the strict decoder returns:
+
+  `hval f = rOWS (dropWhile SP (dropWhile OWS raw ++ continuation lines with their leading HTABs turned into SPs))`,
+  `sval f = trimOWS (… trimOWS (trimOWS raw ++ SP ++ trimOWS cont₁) … ++ SP ++ trimOWS contₙ)`.
+
+(`rOWS` = trailing SP / HTAB removed.)  Since `/repo` 4c60fb1 — the repair of the finding made by this proof: hertz used to
+strip SP only, so `Connection:<HTAB>close` did not close, `Content-Length:<HTAB>3` was answered 400 and
+`Expect:<HTAB>100-continue` got no interim response — the scanner skips SP and HTAB after the colon and trims SP and HTAB
+before CRLF.  So without obs-fold both readings are `trimOWS raw` (`field_value_ows`) and the handler is handed exactly
+the strict decoder's reading (`serve_roundtrip_ows_trimmed`).  With obs-fold the CRLFs are removed, the continuation
+line's leading HTABs become SPs and nothing is compacted, so the readings differ in inner whitespace (equal modulo
+`canon`).  One corner is left where they differ at the front: the first line is blank and a continuation line starts with
+SPs followed by a HTAB (`X: CRLF ␠⇥v`): the compaction drops leading SPs only, the handler gets `⇥v` (`noLeadTab`,
+`fold_corner_*` below).  `OReq` is a request with such fields (header and trailer section), `seenW r` (values `hval`) /
+`strictW r` (values `sval`) its two readings as `WReq`, `wfOReq` the explicit well-formedness predicate: every line a
+`wfFLine`, and the framing / `Trailer` conditions of `wfReq` on the values as hertz reads them; `wfOReqS` the same with
+these conditions on the OWS-trimmed values `sval` (equivalent when there is no obs-fold, `wfOReq_eq_wfOReqS`). -/
+
+/-- `POST /o HTTP/1.1`, `Host:h`, `Content-Length:␠␠␠3␠␠`, `X-A:⇥a␠␠b⇥␠`, `X-Fold:␠a CRLF ⇥␠b CRLF ␠␠c␠`, body `abc` -/
+def exOws : OReq :=
+  { method := [80, 79, 83, 84], target := [47, 111],
+    fields := [⟨[72, 111, 115, 116], [104], []⟩,
+               ⟨[67, 111, 110, 116, 101, 110, 116, 45, 76, 101, 110, 103, 116, 104], [32, 32, 32, 51, 32, 32], []⟩,
+               ⟨[88, 45, 65], [9, 97, 32, 32, 98, 9, 32], []⟩,
+               ⟨[88, 45, 70, 111, 108, 100], [32, 97], [[9, 32, 98], [32, 32, 99, 32]]⟩],
+    body := .fixed [97, 98, 99] }
+
+/-- `POST /c HTTP/1.1`, `Trailer:␠␠X-T`, `Transfer-Encoding:chunked`, chunk `3 abc`, `0`, trailer `X-T:␠1 CRLF ⇥2` -/
+def exOwsChunked : OReq :=
+  { method := [80, 79, 83, 84], target := [47, 99],
+    fields := [⟨[84, 114, 97, 105, 108, 101, 114], [32, 32, 88, 45, 84], []⟩,
+               ⟨[84, 114, 97, 110, 115, 102, 101, 114, 45, 69, 110, 99, 111, 100, 105, 110, 103], [99, 104, 117, 110, 107, 101, 100], []⟩],
+    body := .chunked [⟨[51], [97, 98, 99]⟩] [48] [⟨[88, 45, 84], [32, 49], [[9, 50]]⟩] }
+
+/-- One call of `HeaderScanner.Next` on any spelled field followed by something that is not a continuation line:
+key = normalised name, value = `hval f`, exactly the field's bytes consumed. -/
+theorem field_line_scan (dn : Bool) (f : FLine) (rest : Bytes) (hf : wfFLine f = true)
+    (hr : ∀ c, rest.head? = some c → c ≠ 32 ∧ c ≠ 9) :
+    scanNext dn (encFLine f ++ rest) = .kv (normalizeKey dn f.name) (hval f) rest (encFLine f).length :=
+  scanNext_fline dn f rest hf hr
+
+example : wfFLine ⟨[88, 45, 70], [32, 97], [[9, 32, 98], [32, 32, 99, 32]]⟩ = true ∧
+    hval ⟨[88, 45, 70], [32, 97], [[9, 32, 98], [32, 32, 99, 32]]⟩ = [97, 32, 32, 98, 32, 32, 99] ∧
+    sval ⟨[88, 45, 70], [32, 97], [[9, 32, 98], [32, 32, 99, 32]]⟩ = [97, 32, 98, 32, 99] := by decide
+
+/-- Optional whitespace only (stage 1): hertz and the strict decoder both strip SP and HTAB at both ends
+(before `/repo` 4c60fb1 hertz stripped SP only: `hval = stripSpace raw`). -/
+theorem field_value_ows (k raw : Bytes) :
+    hval { name := k, raw := raw, conts := [] } = Spec.Http.trimOWS raw ∧
+    sval { name := k, raw := raw, conts := [] } = Spec.Http.trimOWS raw := hval_sval_ows k raw
+
+example : hval ⟨[88], [32, 9, 97, 9, 32], []⟩ = [97] ∧ sval ⟨[88], [32, 9, 97, 9, 32], []⟩ = [97] := by decide
+
+/-- `canon` (whitespace runs collapsed to one SP, ends trimmed) is the function `canonVal` the per-case check
+(`Driver/H1Spec.lean`) compares field values with. -/
+theorem canon_is_canonVal (v : Bytes) : canon v = Driver.H1Spec.canonVal v := canon_eq_canonVal v
+
+/-- What the handler is handed and what the strict decoder returns for a spelled field are equal modulo `canon`:
+they consist of the same words. -/
+theorem field_value_canon (f : FLine) (hf : wfFLine f = true) : canon (hval f) = canon (sval f) :=
+  canon_hval_sval f hf
+
+/-- If the value the handler is handed contains no SP / HTAB, the strict decoder returns exactly the same value (so
+numbers, `chunked`, `close`, tokens read the same; a difference needs a blank that hertz keeps). -/
+theorem value_without_blanks_same (f : FLine) (hf : wfFLine f = true) (hnb : ∀ c ∈ hval f, c ≠ 32 ∧ c ≠ 9) :
+    sval f = hval f := sval_eq_hval_of_nb f hf hnb
+
+example : wfFLine ⟨[88], [32, 32], [[9, 99, 108, 111, 115, 101], [32]]⟩ = true ∧
+    hval ⟨[88], [32, 32], [[9, 99, 108, 111, 115, 101], [32]]⟩ = [99, 108, 111, 115, 101] := by decide
+
+/-- … and conversely, outside the obs-fold corner (`noLeadTab f`: the handler's value does not start with a HTAB; always
+true without continuation lines), a value the strict decoder returns without blanks is handed over unchanged. -/
+theorem strict_value_without_blanks_same (f : FLine) (hf : wfFLine f = true) (hlt : noLeadTab f = true)
+    (hnb : ∀ c ∈ sval f, c ≠ 32 ∧ c ≠ 9) : hval f = sval f := hval_eq_sval_of_nb f hf hlt hnb
+
+example : wfFLine ⟨[88], [9], [[9, 32, 51, 9]]⟩ = true ∧ noLeadTab ⟨[88], [9], [[9, 32, 51, 9]]⟩ = true ∧
+    hval ⟨[88], [9], [[9, 32, 51, 9]]⟩ = [51] := by decide
+
+/-- Stage 1 for spelled fields: the head is parsed to `expectedHead` of the handler's reading, consuming exactly the head. -/
+theorem head_roundtrip_ows (dn : Bool) (r : OReq) (h : wfOReq dn r = true) (rest : Bytes) :
+    parseReqHead dn (encHeadOfO r ++ rest) = .ok (expectedHead dn (seenW r), (encHeadOfO r).length) :=
+  parseReqHead_encO dn r h rest
+
+/-- One turn of the keep-alive loop on a request with spelled fields followed by anything. -/
+theorem request_roundtrip_ows (cfg : Cfg) (e : End) (r : OReq) (h : wfOReq cfg.disableNorm r = true)
+    (hlim : withinLimits cfg (seenW r) = true) (fuel : Nat) (first : Bool) (rest : Bytes) :
+    serveLoop cfg e (fuel + 1) first (encReqO r ++ rest) =
+      (if mayContinue (expectedHead cfg.disableNorm (seenW r)) then [Ev.continue100] else []) ++
+      [.req (expectedSeen cfg.disableNorm (seenW r)), .resp 200 (cfg.disableKeepalive || closes (seenW r))] ++
+      (if (cfg.disableKeepalive || closes (seenW r)) = true then [] else serveLoop cfg e fuel false rest) :=
+  serveLoop_stepO cfg e r h hlim fuel first rest
+
+/-- `serve_roundtrip` for every spelling of the field lines (header and trailer section): for every list of
+well-formed requests with spelled fields, every configuration whose limits they respect, both stream ends,
+(1) the handler is handed exactly the requests to be served, in order, each as `expectedSeen` of its reading `seenW`
+(values `hval`); (2) the independent strict decoder reads the same stream back as the readings `strictW` (values
+`sval`); (3) the two readings are the same request modulo the value canonicalisation `canon` (= `canonVal`): same
+method, target, field names, body; field and trailer values equal after collapsing whitespace. -/
+theorem serve_roundtrip_ows (cfg : Cfg) (e : End) (rs : List OReq)
+    (hw : ∀ r ∈ rs, wfOReq cfg.disableNorm r = true ∧ withinLimits cfg (seenW r) = true) :
+    handled (serve cfg e (encAllO rs)) =
+      (served cfg.disableKeepalive (rs.map seenW)).map (expectedSeen cfg.disableNorm) ∧
+    Spec.Http.decodeAll (encAllO rs) = some (rs.map (fun r => toSpec (strictW r))) ∧
+    ∀ r ∈ rs, canonW (seenW r) = canonW (strictW r) :=
+  ⟨serve_encO cfg e rs hw, decodeAll_encO rs (fun r hr => (hw r hr).1), fun r hr => canonW_seen_strict r (hw r hr).1⟩
+
+set_option maxRecDepth 100000 in
+example : (∀ r ∈ [exOws, exOwsChunked], wfOReq false r = true ∧ withinLimits {} (seenW r) = true) ∧
+    (seenW exOws).fields.map (·.2) = [[104], [51], [97, 32, 32, 98], [97, 32, 32, 98, 32, 32, 99]] ∧
+    (strictW exOws).fields.map (·.2) = [[104], [51], [97, 32, 32, 98], [97, 32, 98, 32, 99]] ∧
+    (expectedSeen false (seenW exOwsChunked)).trailers = [([88, 45, 84], [49, 32, 50])] := by decide +kernel
+
+/-- The canonical spelling of `serve_roundtrip` is one of the spellings. -/
+theorem canonical_spelling (k v : Bytes) : encFLine { name := k, raw := 32 :: v, conts := [] } = encField (k, v) :=
+  encFLine_canonical k v
+
+/-- Without obs-fold (any optional whitespace, SP / HTAB, around the values; conditions stated on the OWS-trimmed
+values) the handler is handed exactly the strict decoder's reading of every request to be served. -/
+theorem serve_roundtrip_ows_trimmed (cfg : Cfg) (e : End) (rs : List OReq)
+    (hw : ∀ r ∈ rs, noFold r = true ∧ wfOReqS cfg.disableNorm r = true ∧ withinLimits cfg (strictW r) = true) :
+    handled (serve cfg e (encAllO rs)) =
+      (served cfg.disableKeepalive (rs.map strictW)).map (expectedSeen cfg.disableNorm) ∧
+    Spec.Http.decodeAll (encAllO rs) = some (rs.map (fun r => toSpec (strictW r))) :=
+  serve_encO_noFold cfg e rs hw
+
+/-- `GET /a`, `Host:⇥h`, `Connection:⇥close`; then `GET /b` -/
+def exTabClose : List OReq :=
+  [{ method := [71, 69, 84], target := [47, 97],
+     fields := [⟨[72, 111, 115, 116], [9, 104], []⟩, ⟨[67, 111, 110, 110, 101, 99, 116, 105, 111, 110], [9, 99, 108, 111, 115, 101], []⟩],
+     body := .none },
+   { method := [71, 69, 84], target := [47, 98], fields := [], body := .none }]
+
+example : (∀ r ∈ exTabClose, noFold r = true ∧ wfOReqS false r = true ∧ withinLimits {} (strictW r) = true) ∧
+    exTabClose.map (fun r => (strictW r).fields.map (·.2)) = [[[104], [99, 108, 111, 115, 101]], []] := by decide +kernel
+
+/-- Model refines specification on these streams, provided handler and strict decoder agree on which requests say
+`Connection: close`: method, target and body of what the handler is handed are, request by request, what the strict
+decoder assigns to the requests that are to be served. -/
+theorem serve_refines_spec_ows_partial (cfg : Cfg) (e : End) (rs : List OReq)
+    (hw : ∀ r ∈ rs, wfOReq cfg.disableNorm r = true ∧ withinLimits cfg (seenW r) = true)
+    (hclose : ∀ r ∈ rs, closes (seenW r) = closes (strictW r)) :
+    Spec.Http.decodeAll (encAllO rs) = some (rs.map (fun r => toSpec (strictW r))) ∧
+    (handled (serve cfg e (encAllO rs))).map (fun s => (s.head.method, s.head.uri, s.body)) =
+      ((served cfg.disableKeepalive (rs.map strictW)).map toSpec).map (fun q => (q.method, q.target, q.body)) :=
+  ⟨decodeAll_encO rs (fun r hr => (hw r hr).1), serve_own_strict cfg e rs hw hclose⟩
+
+/-- One direction of `hclose` always holds: the server closes after a request only if the strict reading says
+`Connection: close` too. -/
+theorem server_close_implies_strict_close (dn : Bool) (r : OReq) (h : wfOReq dn r = true)
+    (hc : closes (seenW r) = true) : closes (strictW r) = true := closes_seen_strict r h hc
+
+/-- Since `/repo` 4c60fb1 `hclose` holds by itself outside the obs-fold corner: if no header field's value as handed to
+the handler starts with a HTAB (`noLeadTab`; automatic without continuation lines, `no_fold_no_lead_tab`), the model
+refines the specification. -/
+theorem serve_refines_spec_ows (cfg : Cfg) (e : End) (rs : List OReq)
+    (hw : ∀ r ∈ rs, wfOReq cfg.disableNorm r = true ∧ withinLimits cfg (seenW r) = true)
+    (hlt : ∀ r ∈ rs, ∀ f ∈ r.fields, noLeadTab f = true) :
+    Spec.Http.decodeAll (encAllO rs) = some (rs.map (fun r => toSpec (strictW r))) ∧
+    (handled (serve cfg e (encAllO rs))).map (fun s => (s.head.method, s.head.uri, s.body)) =
+      ((served cfg.disableKeepalive (rs.map strictW)).map toSpec).map (fun q => (q.method, q.target, q.body)) :=
+  serve_refines_spec_ows_partial cfg e rs hw (fun r hr => closes_seen_eq_strict r (hw r hr).1 (hlt r hr))
+
+theorem no_fold_no_lead_tab (f : FLine) (h : f.conts = []) : noLeadTab f = true := noLeadTab_nofold f h
+
+set_option maxRecDepth 100000 in
+example : (∀ r ∈ [exOws, exOwsChunked] ++ exTabClose, wfOReq false r = true ∧ withinLimits {} (seenW r) = true) ∧
+    (∀ r ∈ [exOws, exOwsChunked] ++ exTabClose, ∀ f ∈ r.fields, noLeadTab f = true) := by decide +kernel
+
+/-! #### regression: the HTAB witnesses of the finding repaired by `/repo` 4c60fb1
+
+Before the repair hertz stripped SP only: `Connection:⇥close` was the value `⇥close` (the connection stayed open and the
+next pipelined request was served), `Content-Length:⇥3` was answered 400, `Expect:⇥100-continue` got no interim response
+(found by this proof; the three theorems `serve_refines_spec_ows_fails_at`, `htab_content_length_refused`,
+`htab_expect_ignored` stated it of the old model).  On the same streams now, model = real server (replayed): -/
+
+/-- `Connection:⇥close`: the server closes after the first request; only it is handed to the handler, as the strict
+decoder says. -/
+theorem htab_connection_close_closes :
+    (handled (serve {} .eof (encAllO exTabClose))).map (fun s => s.head.uri) = [[47, 97]] ∧
+    (serve {} .eof (encAllO exTabClose)).getLast? = some (.resp 200 true) ∧
+    (served false (exTabClose.map strictW)).length = 1 := by
+  decide +kernel
+
+/-- `POST /a HTTP/1.1`, `Content-Length:⇥3`, body `abc`: handled with body `abc`, as the strict decoder says. -/
+theorem htab_content_length_accepted :
+    (handled (serve {} .eof
+      [80, 79, 83, 84, 32, 47, 97, 32, 72, 84, 84, 80, 47, 49, 46, 49, 13, 10, 67, 111, 110, 116, 101, 110, 116, 45, 76, 101, 110, 103, 116, 104, 58, 9, 51, 13, 10, 13, 10, 97, 98, 99])).map (fun s => (s.head.uri, s.head.cl, s.body)) = [([47, 97], 3, [97, 98, 99])] ∧
+    (Spec.Http.decodeAll
+      [80, 79, 83, 84, 32, 47, 97, 32, 72, 84, 84, 80, 47, 49, 46, 49, 13, 10, 67, 111, 110, 116, 101, 110, 116, 45, 76, 101, 110, 103, 116, 104, 58, 9, 51, 13, 10, 13, 10, 97, 98, 99]).map (fun l => l.map (fun q => (q.target, q.body))) = some [([47, 97], [97, 98, 99])] := by
+  decide +kernel
+
+/-- `POST /e HTTP/1.1`, `Expect:⇥100-continue`, `Content-Length: 1`, body `x`: the interim response is sent, then the
+request is handled. -/
+theorem htab_expect_continue :
+    (serve {} .eof
+      [80, 79, 83, 84, 32, 47, 101, 32, 72, 84, 84, 80, 47, 49, 46, 49, 13, 10, 69, 120, 112, 101, 99, 116, 58, 9, 49, 48, 48, 45, 99, 111, 110, 116, 105, 110, 117, 101, 13, 10, 67, 111, 110, 116, 101, 110, 116, 45, 76, 101, 110, 103, 116, 104, 58, 32, 49, 13, 10, 13, 10, 120]).head? = some .continue100 ∧
+    (handled (serve {} .eof
+      [80, 79, 83, 84, 32, 47, 101, 32, 72, 84, 84, 80, 47, 49, 46, 49, 13, 10, 69, 120, 112, 101, 99, 116, 58, 9, 49, 48, 48, 45, 99, 111, 110, 116, 105, 110, 117, 101, 13, 10, 67, 111, 110, 116, 101, 110, 116, 45, 76, 101, 110, 103, 116, 104, 58, 32, 49, 13, 10, 13, 10, 120])).map (fun s => s.body) = [[120]] := by
+  decide +kernel
+
+/-! #### what is left: the obs-fold corner "blank first line, continuation line ␠…␠⇥value"
+
+`normalizeHeaderValue` drops leading SPs of the compacted value but not a HTAB that follows them, so the handler's value
+starts with the HTAB.  Replayed on the real server (`replays-Q01/fold_corner.json`): same as the model. -/
+
+/-- `GET /a`, `Connection: CRLF ␠⇥close`; then `GET /b` -/
+def exFoldTabClose : List OReq :=
+  [{ method := [71, 69, 84], target := [47, 97],
+     fields := [⟨[67, 111, 110, 110, 101, 99, 116, 105, 111, 110], [], [[32, 9, 99, 108, 111, 115, 101]]⟩],
+     body := .none },
+   { method := [71, 69, 84], target := [47, 98], fields := [], body := .none }]
+
+/-- The hypothesis `hlt` of `serve_refines_spec_ows` (resp. `hclose` of `…_partial`) cannot be dropped: these requests are
+well-formed, the strict decoder reads `Connection: close` in the first one (so only it is to be served), the handler's
+value is `⇥close`, the server does not close and hands both requests to the handler. -/
+theorem serve_refines_spec_ows_fails_at :
+    (∀ r ∈ exFoldTabClose, wfOReq false r = true ∧ withinLimits {} (seenW r) = true) ∧
+    exFoldTabClose.map (fun r => (seenW r).fields.map (·.2)) = [[[9, 99, 108, 111, 115, 101]], []] ∧
+    exFoldTabClose.map (fun r => (strictW r).fields.map (·.2)) = [[[99, 108, 111, 115, 101]], []] ∧
+    (handled (serve {} .eof (encAllO exFoldTabClose))).length = 2 ∧
+    (served false (exFoldTabClose.map strictW)).length = 1 := by
+  decide +kernel
+
+/-- `POST /a HTTP/1.1`, `Content-Length: CRLF ␠⇥3`, body `abc`: in the strict decoder's language (one request, body
+`abc`), answered 400 by the server (a refusal, nothing is mis-framed). -/
+theorem fold_corner_content_length_refused :
+    serve {} .eof
+      [80, 79, 83, 84, 32, 47, 97, 32, 72, 84, 84, 80, 47, 49, 46, 49, 13, 10, 67, 111, 110, 116, 101, 110, 116, 45, 76, 101, 110, 103, 116, 104, 58, 13, 10, 32, 9, 51, 13, 10, 13, 10, 97, 98, 99] = [.resp 400 true] ∧
+    (Spec.Http.decodeAll
+      [80, 79, 83, 84, 32, 47, 97, 32, 72, 84, 84, 80, 47, 49, 46, 49, 13, 10, 67, 111, 110, 116, 101, 110, 116, 45, 76, 101, 110, 103, 116, 104, 58, 13, 10, 32, 9, 51, 13, 10, 13, 10, 97, 98, 99]).map (fun l => l.map (fun q => (q.target, q.body))) = some [([47, 97], [97, 98, 99])] := by
+  decide +kernel
+
+/-! #### empty lines in front of a request line (`Proofs/ReqOwsBlank.lean`) -/
+
+/-- The server loop ignores any number of empty lines (CRLF) in front of a request line: same events as without them. -/
+theorem blank_lines_ignored (cfg : Cfg) (e : End) (fuel : Nat) (first : Bool) (k : Nat) (c : UInt8) (X : Bytes)
+    (h13 : c ≠ 13) (h10 : c ≠ 10) (hlen : 4 ≤ (c :: X).length) :
+    serveLoop cfg e (fuel + 1) first (crlfs k ++ c :: X) = serveLoop cfg e (fuel + 1) first (c :: X) :=
+  serveLoop_skip cfg e fuel first k c X h13 h10 hlen
+
+/-- `serve_roundtrip_ows` with any number of empty lines in front of every request (`encAllB`: each request comes
+with the number of empty lines that precede it).  The strict decoder does not accept such streams
+(`spec_refuses_blank_line`), so this is a statement about the server only. -/
+theorem serve_roundtrip_blank_lines (cfg : Cfg) (e : End) (rs : List (Nat × OReq))
+    (hw : ∀ p ∈ rs, wfOReq cfg.disableNorm p.2 = true ∧ withinLimits cfg (seenW p.2) = true) :
+    handled (serve cfg e (encAllB rs)) =
+      (served cfg.disableKeepalive (rs.map (fun p => seenW p.2))).map (expectedSeen cfg.disableNorm) :=
+  serve_encB cfg e rs hw
+
+set_option maxRecDepth 100000 in
+example : (∀ p ∈ [(2, exOws), (1, exOwsChunked)], wfOReq false p.2 = true ∧ withinLimits {} (seenW p.2) = true) ∧
+    (encAllB [(2, exOws), (1, exOwsChunked)]).take 8 = [13, 10, 13, 10, 80, 79, 83, 84] := by decide +kernel
+
+theorem spec_refuses_blank_line (X : Bytes) : Spec.Http.decodeAll (13 :: 10 :: X) = none := decodeAll_blank X
 
 end Hertz.Props.C01
